@@ -131,7 +131,19 @@ pub fn generate(seed: u64, n: usize, _thorough: bool) -> Cases {
     while i < n && attempts < 20 * n {
         attempts += 1;
         let mut r = rng.fork(attempts as u64);
-        match r.below(10) {
+        match r.below(14) {
+            10..=12 => {
+                // (5) the "same text" lints on whole programs
+                if !crate::c04same::same_case(&mut r, &mut cases) {
+                    continue;
+                }
+            }
+            13 => {
+                // (6) multiple_statements over line layouts
+                if !crate::c04same::lines_case(&mut r, &mut cases) {
+                    continue;
+                }
+            }
             0..=4 => {
                 // (1) modelled lints on whole programs
                 let mut src = String::new();
